@@ -5,7 +5,6 @@ package main
 // VIOLATION / KNOWN-FINDING lines, set the exit code.
 
 import (
-	"sync/atomic"
 	"bytes"
 	"encoding/json"
 	"flag"
@@ -19,6 +18,7 @@ import (
 	"strconv"
 	"strings"
 	"sync"
+	"sync/atomic"
 	"time"
 	"unicode/utf8"
 )
@@ -639,13 +639,13 @@ func cmdCheck(args []string) {
 	// grouped by (kind, tag, site) and at most three of a group are replayed — one
 	// confirmed member makes the group a violation. Replays run eight at a time.
 	type job struct {
-		f        *failure
-		known    *knownFinding
-		group    string
-		done     bool
-		ok       bool
-		out      string
-		skipped  bool
+		f       *failure
+		known   *knownFinding
+		group   string
+		done    bool
+		ok      bool
+		out     string
+		skipped bool
 	}
 	var jobs []*job
 	perGroup := map[string]int{}
